@@ -1,0 +1,99 @@
+//go:build verif
+
+// Package verifhook re-exports a few internal functions for the external verification harness.
+// It is compiled only with the build tag `verif`; without the tag the package is empty.
+package verifhook
+
+import (
+	"sort"
+	"strings"
+
+	"github.com/aml-org/amf-custom-validator/internal/parser"
+	"github.com/aml-org/amf-custom-validator/internal/parser/path"
+	"github.com/aml-org/amf-custom-validator/internal/validator"
+	c "github.com/aml-org/amf-custom-validator/pkg/config"
+	e "github.com/aml-org/amf-custom-validator/pkg/events"
+	"github.com/open-policy-agent/opa/rego"
+)
+
+// GenerateRego returns the Rego module text generated for a profile.
+func GenerateRego(profileText string, eventChan *chan e.Event) (name string, code string, err error) {
+	unit, err := validator.GenerateRego(profileText, false, eventChan)
+	if err != nil {
+		return "", "", err
+	}
+	return unit.Name, unit.Code, nil
+}
+
+// ParseProfile returns the logical rendering of the parsed profile.
+func ParseProfile(profileText string) (string, error) {
+	p, err := parser.Parse(profileText)
+	if err != nil {
+		return "", err
+	}
+	return p.String(), nil
+}
+
+// ProcessInput is the data half of the pipeline: decode, normalize, index.
+func ProcessInput(jsonldText string, eventChan *chan e.Event) (any, error) {
+	return validator.ProcessInput(jsonldText, false, eventChan)
+}
+
+func Normalize(json any) any { return validator.Normalize(json) }
+
+func Index(json any) any { return validator.Index(json) }
+
+func Encode(data any) string { return validator.Encode(data) }
+
+func BuildReport(result *rego.ResultSet, vc c.ValidationConfiguration, rc c.ReportConfiguration) (string, error) {
+	return validator.BuildReport(result, vc, rc)
+}
+
+// UnsafeBuiltins lists the names passed to rego.UnsafeBuiltins by CompileRego.
+func UnsafeBuiltins() []string {
+	var acc []string
+	for k := range validator.VerifUnsafeBuiltins() {
+		acc = append(acc, k)
+	}
+	sort.Strings(acc)
+	return acc
+}
+
+// ParsePath parses a property path and dumps its structure in a canonical form.
+func ParsePath(s string) (string, error) {
+	p, err := path.ParsePath(s)
+	if err != nil {
+		return "", err
+	}
+	return DumpPath(p), nil
+}
+
+func DumpPath(p path.PropertyPath) string {
+	switch v := p.(type) {
+	case path.NullPath:
+		return "null"
+	case path.Property:
+		s := v.Iri
+		if v.Inverse {
+			s += "^"
+		}
+		if v.Transitive {
+			s += "*"
+		}
+		return s
+	case path.AndPath:
+		var parts []string
+		for _, x := range v.And {
+			parts = append(parts, DumpPath(x))
+		}
+		return "seq(" + strings.Join(parts, ",") + ")"
+	case path.OrPath:
+		var parts []string
+		for _, x := range v.Or {
+			parts = append(parts, DumpPath(x))
+		}
+		return "alt(" + strings.Join(parts, ",") + ")"
+	default:
+		return "?"
+	}
+}
